@@ -10,6 +10,8 @@
 import Proofs.Lemmas.AoefRoundtrip
 import Proofs.Lemmas.AoefC01Dir
 import SoundeventModel.Aoef.File
+import SoundeventModel.Aoef.FileSys
+import Proofs.Lemmas.AoefFileSys
 namespace SE.Proofs.C01
 open SE SE.Aoef SE.Paths
 
@@ -352,5 +354,116 @@ example : loadGate ⟨true, true, none, some "dataset", "1.1.0", "dataset"⟩ = 
 example : loadGate ⟨true, true, none, some "recording_set", "1.1.0", "dataset"⟩ = .error .invalid := by decide
 example : loadGate ⟨false, true, some "aoef", none, "1.1.0", "dataset"⟩ = .error .notFound := by decide
 example : loadGate ⟨false, false, none, none, "1.1.0", "dataset"⟩ = .error .invalid := by decide
+
+/-! ### histories: the state carried between calls of `io.save` / `io.load` is the file system
+
+`SE.Aoef.FS`: a file system is a map path → content, `save` writes with `write` (which *replaces*),
+`load` reads what the path holds now.  The theorems say that nothing a path held before, and nothing
+that happened at other paths, can be seen through a save followed by a load. -/
+section FileSystem
+open SE.Aoef.FS SE.History
+
+/-- writing replaces: what is read back is what was written, **whatever the path held before** -/
+theorem C01_fs_write_read (p : String) (x : Content) (fs : FileSys) : FS.read p (write p x fs) = some x := by
+  simp [FS.read, write]
+
+/-- writing touches no other path -/
+theorem C01_fs_write_frame (p q : String) (x : Content) (fs : FileSys) (h : q ≠ p) :
+    FS.read q (write p x fs) = FS.read q fs := by
+  simp [FS.read, write, h]
+
+/-- after a successful `save` the file is a function of the saved object only: two file systems
+    with arbitrary previous contents agree at the target afterwards; a failed `save` writes nothing -/
+theorem C01_fs_save_overwrites (p : String) (c : Collection) (sd : Option PPath) :
+    (∀ d, save c sd = .ok d → ∀ fs, FS.read p (exec fs (.save p c sd)).1 = some (.doc d))
+    ∧ (∀ e, save c sd = .error e → ∀ fs, (exec fs (.save p c sd)).1 = fs) := by
+  constructor
+  · intro d hd fs
+    simp [exec, execW, hd, FS.read, write]
+  · intro e he fs
+    simp [exec, execW, he]
+
+/-- **Every history.**  Whatever calls `xs` came first (whatever any path holds: longer or shorter
+    documents, other collections, text that is no document at all, nothing), once `c` has been saved
+    to `p`, and whatever calls `ys` that do not write to `p` follow (saves to other paths, loads of any
+    path), a load of `p` returns `c` (relocated when the load directory differs). -/
+theorem C01_fs_load_last_save (fs0 : FileSys) (xs ys : List Cmd) (p : String) (c : Collection)
+    (sd ld : Option PPath) (d : Doc) (hwf : WF c) (hs : save c sd = .ok d)
+    (hys : ∀ y ∈ ys, y.target ≠ some p) :
+    (exec (stateAfter exec fs0 (xs ++ Cmd.save p c sd :: ys)) (.load p ld)).2
+      = .loaded (.ok (c.mapPath (relocated sd ld))) := by
+  rw [stateAfter_append]
+  simp only [stateAfter]
+  have h1 : FS.read p (stateAfter exec (exec (stateAfter exec fs0 xs) (Cmd.save p c sd)).1 ys) = some (.doc d) := by
+    show stateAfter exec (exec (stateAfter exec fs0 xs) (Cmd.save p c sd)).1 ys p = some (.doc d)
+    rw [stateAfter_frame ys _ p hys]
+    exact (C01_fs_save_overwrites p c sd).1 d hs _
+  generalize stateAfter exec (exec (stateAfter exec fs0 xs) (Cmd.save p c sd)).1 ys = fs at h1
+  show (execW write fs (.load p ld)).2 = _
+  simp only [execW, h1]
+  rw [C01_roundtrip_general c sd ld d hwf hs]
+
+/-- one save followed by one load answers as the pure model does, in **every** file system -/
+theorem C01_fs_save_load (fs : FileSys) (x : SaveLoad) : (slStep fs x).2 = slPure x := by
+  unfold slStep slStepW slPure
+  simp only [execW]
+  cases hs : save x.c x.sd with
+  | error e => rfl
+  | ok d => simp [FS.read, write]
+
+/-- the save/load cycle is history-free: no reachable file system changes its answer -/
+theorem C01_fs_history_free (fs0 : FileSys) : HistoryFree slStep fs0 slPure :=
+  fun s _ x => C01_fs_save_load s x
+
+/-- a history of save/load cycles — any paths (the same path again and again, alternating
+    collections, shrinking and growing documents), any previous content — answers step by step as
+    the pure model -/
+theorem C01_fs_history (fs0 : FileSys) (xs : List SaveLoad) : runS slStep fs0 xs = runPure slPure xs :=
+  (historyFree_iff slStep fs0 slPure).1 (C01_fs_history_free fs0) xs
+
+/-- … and for collections inside the quantifier every step returns the collection saved at that
+    step (relocated when the directories differ) -/
+theorem C01_fs_history_roundtrip (fs0 : FileSys) (xs : List SaveLoad)
+    (h : ∀ x ∈ xs, WF x.c ∧ ∃ d, save x.c x.sd = .ok d) :
+    runS slStep fs0 xs = xs.map fun x => .ok (x.c.mapPath (relocated x.sd x.ld)) := by
+  rw [C01_fs_history]
+  unfold runPure
+  apply List.map_congr_left
+  intro x hx
+  obtain ⟨hwf, d, hd⟩ := h x hx
+  simp [slPure, hd, C01_roundtrip_general x.c x.sd x.ld d hwf hd]
+
+/-- without an audio directory: every step of every history returns exactly what was saved -/
+theorem C01_fs_history_fixpoint (fs0 : FileSys) (xs : List SaveLoad)
+    (h : ∀ x ∈ xs, WF x.c ∧ x.sd = none ∧ x.ld = none) :
+    runS slStep fs0 xs = xs.map fun x => .ok x.c := by
+  rw [C01_fs_history]
+  unfold runPure
+  apply List.map_congr_left
+  intro x hx
+  obtain ⟨hwf, hsd, hld⟩ := h x hx
+  obtain ⟨d, hd⟩ := C01_save_total x.c
+  simp [slPure, hsd, hld, hd, C01_roundtrip x.c d hwf hd]
+
+/-! non-vacuity: a large collection then a small one on one path, over a path that held text that is
+    no document; and a writer that does not truncate is *not* history-free on exactly that history -/
+def exSmall : Collection := .recordingSet { uuid := "rs", created_on := "2020", recordings := [exRec] }
+def exLarge : Collection :=
+  .recordingSet { uuid := "rs", created_on := "2020",
+                  recordings := [exRec, { exRec with uuid := "r2" }, { exRec with uuid := "r3" }] }
+def exHistory : List SaveLoad :=
+  [⟨"a.json", exLarge, none, none⟩, ⟨"a.json", exSmall, none, none⟩, ⟨"a.json", exEval, some exDir, some exDir⟩,
+   ⟨"b.json", exSmall, none, none⟩, ⟨"a.json", exLarge, none, none⟩]
+def exFs0 : FileSys := write "a.json" (.junk "not a document") FS.empty
+def exLen : Content → Nat
+  | .doc d => (d.recordings.getD []).length
+  | .junk s => s.length
+
+example : wfB exSmall = true ∧ wfB exLarge = true := by decide +kernel
+example : runS slStep exFs0 exHistory = exHistory.map fun x => .ok x.c := by decide +kernel
+example : runS (slStepW (writeNoTrunc exLen)) FS.empty exHistory ≠ runPure slPure exHistory := by decide +kernel
+example : (runS (slStepW (writeNoTrunc exLen)) FS.empty exHistory)[1]? = some (.error .invalid) := by decide +kernel
+
+end FileSystem
 
 end SE.Proofs.C01
